@@ -22,7 +22,7 @@ type Handshake struct {
 func (h *Handshake) ReadFrom(i io.Reader) (int64, error) {
 	var n int64 = 0
 	hndsLength := make([]byte, 4)
-	c, err := i.Read(hndsLength)
+	c, err := io.ReadFull(i, hndsLength)
 	n += int64(c)
 	if err != nil {
 		return n, fmt.Errorf("failed to read handshake length: %v", err)
@@ -35,7 +35,7 @@ func (h *Handshake) ReadFrom(i io.Reader) (int64, error) {
 	}
 
 	hndsData := make([]byte, l)
-	c, err = i.Read(hndsData)
+	c, err = io.ReadFull(i, hndsData)
 	n += int64(c)
 	if err != nil {
 		return n, fmt.Errorf("failed to read handshake: %v", err)
